@@ -7,9 +7,9 @@ PROPERTY_GROUPS = {
     'C05': ['xml'],
     'C06': ['rep', 'timing', 'dt', 'load', 'httprange'],
     'C08': ['timing'],
-    'C09': ['timing', 'rep', 'dt', 'errors'],
+    'C09': ['timing', 'rep', 'dt', 'errors', 'xml'],
     'C10': ['drm', 'mp4', 'playready'],
-    'C11': ['playready', 'mp4', 'drm'],
+    'C11': ['playready', 'mp4', 'drm', 'clearkey', 'xml'],
     'C12': ['mps'],
     'C13': ['httprange', 'rep'],
     'C14': ['events', 'scte35', 'mp4'],
